@@ -168,6 +168,150 @@ def opaque(kind, *args):
     return Lin.atom((kind, *args))
 
 
+def _subst_atom(lin: "Lin", atom, repl: "Lin") -> "Lin":
+    """replace every occurrence of the opaque `atom` (also inside the arguments of other opaque atoms) by `repl`"""
+    out = Lin.const(lin.c)
+    for k, c in lin.t.items():
+        if k == atom:
+            out = out + repl.scale(c)
+        elif isinstance(k, tuple) and len(k) >= 2 and isinstance(k[0], str) and any(isinstance(a, Lin) for a in k[1:]):
+            new_args = [(_subst_atom(a, atom, repl) if isinstance(a, Lin) else a) for a in k[1:]]
+            if k[0] in ("min", "max") and all(isinstance(a, Lin) for a in new_args):
+                # simplify when the arguments now differ by a constant
+                d = new_args[0] - new_args[1]
+                if d.is_const():
+                    pick = new_args[0] if ((d.c <= 0) == (k[0] == "min")) else new_args[1]
+                    out = out + pick.scale(c)
+                    continue
+            out = out + opaque(k[0], *new_args).scale(c)
+        else:
+            out = out + Lin({k: c})
+    return out
+
+
+def _minmax_atoms(lin: "Lin"):
+    for k in lin.t:
+        if isinstance(k, tuple) and k and k[0] in ("min", "max") and len(k) == 3 and all(isinstance(a, Lin) for a in k[1:]):
+            yield k
+        if isinstance(k, tuple):
+            for a in k[1:]:
+                if isinstance(a, Lin):
+                    yield from _minmax_atoms(a)
+
+
+def _eval_lin(lin: "Lin", asg: dict):
+    """integer value of lin under an assignment of its base atoms (None when an atom has no value / division by zero)"""
+    from fractions import Fraction
+
+    tot = Fraction(lin.c)
+    for k, c in lin.t.items():
+        if isinstance(k, str):
+            if k not in asg:
+                return None
+            v = asg[k]
+        elif isinstance(k, tuple) and k and k[0] == "mono":
+            v = 1
+            for f_ in k[1]:
+                fv = asg.get(f_) if isinstance(f_, str) else _eval_lin(Lin({f_: 1}), asg)
+                if fv is None:
+                    return None
+                v *= fv
+        elif isinstance(k, tuple) and k and isinstance(k[0], str):
+            args = [(_eval_lin(a, asg) if isinstance(a, Lin) else None) for a in k[1:]]
+            if any(a is None for a in args):
+                return None
+            if k[0] == "min":
+                v = min(args)
+            elif k[0] == "max":
+                v = max(args)
+            elif k[0] == "fdiv":
+                if args[1] == 0:
+                    return None
+                v = args[0] // args[1]
+            elif k[0] == "mod":
+                if args[1] == 0:
+                    return None
+                v = args[0] % args[1]
+            elif k[0] == "abs":
+                v = abs(args[0])
+            else:
+                return None
+        else:
+            return None
+        tot += Fraction(c) * v
+    return tot
+
+
+def _base_atoms(lin: "Lin", out=None):
+    out = set() if out is None else out
+    for k in lin.t:
+        if isinstance(k, str):
+            out.add(k)
+        elif isinstance(k, tuple) and k and k[0] == "mono":
+            for f_ in k[1]:
+                if isinstance(f_, str):
+                    out.add(f_)
+                else:
+                    _base_atoms(Lin({f_: 1}), out)
+        elif isinstance(k, tuple):
+            for a in k[1:]:
+                if isinstance(a, Lin):
+                    _base_atoms(a, out)
+    return out
+
+
+def lin_equiv(a: "Lin", b: "Lin", domain=None, constraints=()):
+    """Are two integer forms with min/max atoms equal for all values of their atoms?
+    -> (True, None)   proved by case analysis on every min/max (each leaf an affine identity)
+       (False, asg)   a concrete assignment of the atoms (within `domain`, satisfying `constraints`: Lins meaning <= 0)
+                      on which they differ
+       (None, None)   neither proved nor refuted
+    domain: {atom: iterable of ints}; atoms not listed range over 0..6."""
+    import itertools as _it
+
+    def prove(x, y, depth=0):
+        d = x - y
+        if d.is_zero():
+            return True
+        ats = list(dict.fromkeys(_minmax_atoms(d)))
+        if not ats or depth > 6:
+            return False
+        at = ats[0]
+        p, q = at[1], at[2]
+        lo, hi = (p, q) if at[0] == "min" else (q, p)  # value when p <= q / when q <= p
+        # both cases must agree (the constraint of the case is not used: an affine identity holds regardless)
+        return prove(_subst_atom(x, at, lo), _subst_atom(y, at, lo), depth + 1) and prove(_subst_atom(x, at, hi), _subst_atom(y, at, hi), depth + 1)
+
+    if (a - b).is_zero():
+        return True, None
+    # sound but incomplete proof: require equality in every syntactic case; then a complete search on a small grid
+    try:
+        if prove(a, b):
+            return True, None
+    except Exception:
+        pass
+    atoms = sorted(_base_atoms(a) | _base_atoms(b))
+    if len(atoms) > 5:
+        return None, None
+    dom = {x: list((domain or {}).get(x, range(0, 7))) for x in atoms}
+    differs = None
+    n_ok = 0
+    for vals in _it.product(*[dom[x] for x in atoms]):
+        asg = dict(zip(atoms, vals))
+        if any((_eval_lin(c_, asg) is None) or _eval_lin(c_, asg) > 0 for c_ in constraints):
+            continue
+        va, vb = _eval_lin(a, asg), _eval_lin(b, asg)
+        if va is None or vb is None:
+            continue
+        if va != vb:
+            differs = asg
+            break
+        n_ok += 1
+    if differs is not None:
+        return False, differs
+    return (None, None) if n_ok == 0 else ("grid", None)
+
+
 # --------------------------------------------------------------------------- values
 
 
